@@ -37,7 +37,7 @@ def run (c : Cfg) (P : Picker ρ α) : Hist α → ρ → Sketch α × ρ
   | .new k d, r => (init k d, r)
   | .upd h p, r =>
     let x := run c P h r
-    update P x.2 x.1 p
+    update c P x.2 x.1 p
   | .merge h o, r =>
     let x := run c P h r
     let y := run c P o x.2
@@ -52,12 +52,17 @@ def Hist.noEmptiedOperand (c : Cfg) (P : Picker ρ α) : Hist α → ρ → Prop
     h.noEmptiedOperand c P r ∧ o.noEmptiedOperand c P (run c P h r).2 ∧
     (mergeSkips c (run c P o (run c P h r).2).1 = true → (run c P o (run c P h r).2).1.n = 0)
 
-/-- every sketch merged in anywhere in the tree was itself still in exact mode (one level) when merged -/
+/-- every sketch merged in anywhere in the tree had itself not lost a point yet when merged: one level and
+`num_retained_ = n_` (what a user can observe: `!is_estimation_mode() && get_num_retained() == get_n()`).  In the pinned
+shape of `compact()` one level alone implies it; in the repaired shape a sketch can be back at one level after a compaction
+that kept nothing, which `num_retained_ < n_` then reveals. -/
 def Hist.operandsExact (c : Cfg) (P : Picker ρ α) : Hist α → ρ → Prop
   | .new _ _, _ => True
   | .upd h _, r => h.operandsExact c P r
   | .merge h o, r =>
-    h.operandsExact c P r ∧ o.operandsExact c P (run c P h r).2 ∧ (run c P o (run c P h r).2).1.levels.length = 1
+    h.operandsExact c P r ∧ o.operandsExact c P (run c P h r).2 ∧
+    ((run c P o (run c P h r).2).1.levels.length = 1 ∧
+     (run c P o (run c P h r).2).1.numRetained = (run c P o (run c P h r).2).1.n)
 
 instance Hist.decValid (m : Nat) : (h : Hist α) → Decidable (h.valid m)
   | .new k _ => inferInstanceAs (Decidable (m ≤ k))
